@@ -137,13 +137,18 @@ Definition prepare (lay : layout) (udhi : bool) (m : shortmsg) : shortmsg :=
        | Some _ => m
        end.
 
+(* ESMClass.ReadByte / RegisteredDelivery.ReadByte report an error when a sub-field is wider than its bit
+   field (after the fix: commits recorded in KNOWN_FINDINGS.txt; before, the value was masked silently) *)
+Definition esm_fits (e : esm) : bool := (e_mode e <? 4) && (e_type e <? 16).
+Definition regdel_fits (r : regdel) : bool := (r_mc r <? 4) && (r_sme r <? 4) && (r_rsv r <? 8).
+
 Definition enc_field (lay : layout) (udhi : bool) (k : fkind) (v : fval) : outcome bytes :=
   match k, v with
   | FCStr, VStr s => if has_nul s then Err EText else Ok (enc_cstr s)
   | FU8, VU8 b => Ok [b]
   | FBool, VBool b => Ok (enc_bool b)
-  | FEsm, VEsm e => Ok [esm_to_byte e]
-  | FRegDel, VRegDel r => Ok [regdel_to_byte r]
+  | FEsm, VEsm e => if esm_fits e then Ok [esm_to_byte e] else Err ESize
+  | FRegDel, VRegDel r => if regdel_fits r then Ok [regdel_to_byte r] else Err ESize
   | FAddr, VAddr a => if has_nul (a_no a) then Err EText else Ok (enc_addr a)
   | FDests, VDests sme dl => enc_dests sme dl
   | FUnsucc, VUnsucc l => enc_unsucc l
